@@ -644,7 +644,7 @@ Proof.
       * simpl. apply Hfit. exact Hb.
     + simpl app. apply LL_force; [exact Hlt|exact HL].
   - (* EMember *)
-    simpl in Hs. destruct Hok as [Hok1 Hfit]. simpl in Hlt.
+    simpl in Hs. destruct Hok as (Hok1 & Hfit & _). simpl in Hlt.
     simpl pr. rewrite app_assoc3.
     apply IHop; [lia|exact Hok1|exact Hr| |].
     + intros Hb0. assert (Hb : bare pAccess e = true) by (unfold bare; rewrite Hb0; reflexivity). split.
@@ -702,7 +702,9 @@ Proof.
   - simpl in Hs. simpl in H. rewrite !andb_true_iff in H. destruct H as [[H1 H2] H3]. simpl. repeat split; apply IH; try assumption; lia.
   - simpl in Hs. simpl in H. apply andb_true_iff in H. destruct H as [H1 H2]. simpl. split; [apply IH; [lia|exact H1]|apply fitsb_fits; exact H2].
   - simpl in Hs. simpl in H. apply andb_true_iff in H. destruct H as [H1 H2]. simpl. split; [apply IH; [lia|exact H1]|apply fitsb_fits; exact H2].
-  - simpl in Hs. simpl in H. apply andb_true_iff in H. destruct H as [H1 H2]. simpl. split; [apply IH; [lia|exact H1]|apply fitsb_fits; exact H2].
+  - simpl in Hs. simpl in H. rewrite !andb_true_iff in H. destruct H as [[H1 H2] H3]. simpl.
+    split; [apply IH; [lia|exact H1]|]. split; [apply fitsb_fits; exact H2|].
+    intros z ->. discriminate H3.
   - simpl in Hs. simpl in H. rewrite !andb_true_iff in H. destruct H as [[H1 H2] H3]. simpl.
     split; [apply IH; [lia|exact H1]|]. split; [apply IH; [lia|exact H2]|apply fitsb_fits; exact H3].
   - rewrite size_invoke in Hs. apply ok_invoke.
